@@ -1,15 +1,15 @@
 SPECIFICATION Spec
 CONSTANTS
   NF = 1
-  MaxLen = 60
-  Kinds = {"cc", "mod", "modeonly"}
+  MaxLen = 14
+  Kinds = {"cc", "modeonly"}
   MaxHunks = 2
   MaxBody = 2
-  Preamble = TRUE
+  Preamble = FALSE
   MaxConf = 1
   Buf = 1
   Fixes = {"D1", "D14", "D2", "D18", "D19", "D20", "D21", "D23"}
-  ColorOnly = FALSE
-VIEW View
-ACTION_CONSTRAINT Edge
+  ColorOnly = TRUE
+  ReplayLen = 0
+INVARIANTS LineForLine
 CHECK_DEADLOCK FALSE
